@@ -16,6 +16,7 @@ import hashlib
 import traceback
 from dataclasses import dataclass, field
 from pathlib import Path
+from .canon import canonicalise
 from typing import Any, Callable, Iterable, Optional
 
 VERIF_ROOT = Path(__file__).resolve().parent.parent
@@ -81,7 +82,7 @@ class Module:
         self.name = name
         self.path = path
         self.text = path.read_text()
-        self.tree = ast.parse(self.text, filename=str(path))
+        self.tree = canonicalise(ast.parse(self.text, filename=str(path)))
         self.imports: dict[str, str] = {}  # local name -> "module:symbol" or "module"
         self.classes: dict[str, ClassInfo] = {}
         self.funcs: dict[str, FuncInfo] = {}  # all functions by qual
